@@ -68,6 +68,19 @@ def axis_angle_terms(reaction) -> float:
     return worst * len(topologies_of(reaction))
 
 
+def axis_angle_cost(reaction) -> float:
+    """Size of the unfolded axis-angle intensity ~ (terms of the alignment sum) x (number of chains)."""
+    return axis_angle_terms(reaction) * max(1, len(reaction.transitions))
+
+
+def dpd_cost(reaction) -> float:
+    """Size of the unfolded DPD intensity ~ prod_outer (2j+1)^2 x number of chains."""
+    c = 1.0
+    for part in list(reaction.initial_state.values()) + list(reaction.final_state.values()):
+        c *= (2 * float(part.spin) + 1) ** 2
+    return c * max(1, len(reaction.transitions))
+
+
 def default_config() -> dict:
     return {"stable": None, "scalar_mass": False, "couplings": False, "align": "none",
             "naming": None, "permutate": False, "dynamics": []}
